@@ -289,7 +289,8 @@ EXTRA = {
     "C16": " Added later: layer (e) deep nesting (14 XML and 8 dictionary shapes at 9 / 21 depths up to 3 000 / 10 000) and layer (f) "
            "pumped input (runs of 30 / 64 / 5 000 of one unit at 13 XML and 5 dictionary sites), each reader call under its own "
            "processor-time watchdog ('never hangs'); the survivors oracle forgives an attribute-level mutation only the "
-           "attribute it touched (the object keeps its id and its other attributes) and a duplicated element only itself.",
+           "attribute it touched (the object keeps its id and its other attributes) and a duplicated element only itself; "
+           "JSON / YAML text is also read with the reader's default option show_warnings (validation after loading).",
     "C17": " Added later: seven spellings of the search / input directory (relative, through '..', trailing separator, below a "
            "hidden directory, names with regular-expression metacharacters or a blank), base names that resemble derived output "
            "names (a / a_conv), and for the format converter every output that exists is loaded and compared with its source.",
